@@ -556,6 +556,10 @@ func (k *Key) MarshalCBOR() ([]byte, error) {
 		if _, ok := existing[lbl]; ok {
 			return nil, fmt.Errorf("duplicate label %v", lbl)
 		}
+		if l, ok := lbl.(int64); ok && keyLabelKeyType <= l && l <= keyLabelBaseIV {
+			// common parameters are carried by the Key fields
+			return nil, fmt.Errorf("duplicate label %v", lbl)
+		}
 		existing[lbl] = struct{}{}
 		tmp[lbl] = v
 	}
